@@ -1,5 +1,5 @@
 use crate::rt::object;
-use crate::rt::{self, Access, Location, Synchronize, VersionVec};
+use crate::rt::{self, thread, Access, Location, Synchronize, VersionVec, MAX_THREADS};
 
 use std::sync::atomic::Ordering::{Acquire, Release, SeqCst};
 
@@ -22,11 +22,12 @@ pub(super) struct State {
     /// Only updated on on ref dec and acquired before drop
     synchronize: Synchronize,
 
-    /// Tracks access to the arc object
-    last_ref_inc: Option<Access>,
+    /// Tracks access to the arc object. Clones are independent of each other
+    /// and so are inspections, the last one of every thread is tracked. Drops
+    /// depend on each other, the last one is enough.
+    last_ref_inc: [Option<Access>; MAX_THREADS],
     last_ref_dec: Option<Access>,
-    last_ref_inspect: Option<Access>,
-    last_ref_modification: Option<RefModify>,
+    last_ref_inspect: [Option<Access>; MAX_THREADS],
 }
 
 /// Actions performed on the Arc
@@ -46,18 +47,6 @@ pub(super) enum Action {
     Inspect,
 }
 
-/// Actions which modify the Arc's reference count
-///
-/// This is used to ascertain dependence for Action::Inspect
-#[derive(Debug, Copy, Clone, PartialEq)]
-enum RefModify {
-    /// Corresponds to Action::RefInc
-    RefInc,
-
-    /// Corresponds to Action::RefDec
-    RefDec,
-}
-
 impl Arc {
     pub(crate) fn new(location: Location) -> Arc {
         rt::execution(|execution| {
@@ -65,10 +54,9 @@ impl Arc {
                 ref_cnt: 1,
                 allocated: location,
                 synchronize: Synchronize::new(),
-                last_ref_inc: None,
+                last_ref_inc: Default::default(),
                 last_ref_dec: None,
-                last_ref_inspect: None,
-                last_ref_modification: None,
+                last_ref_inspect: Default::default(),
             });
 
             trace!(?state, %location, "Arc::new");
@@ -181,30 +169,39 @@ impl State {
         }
     }
 
-    pub(super) fn last_dependent_access(&self, action: Action) -> Option<&Access> {
-        match action {
+    /// Returns the accesses the action depends on
+    pub(super) fn dependent_accesses(&self, action: Action) -> impl Iterator<Item = &Access> {
+        let (incs, dec, inspects) = match action {
             // RefIncs are not dependent w/ RefDec, only inspections
-            Action::RefInc => self.last_ref_inspect.as_ref(),
-            Action::RefDec => self.last_ref_dec.as_ref(),
-            Action::Inspect => match self.last_ref_modification {
-                Some(RefModify::RefInc) => self.last_ref_inc.as_ref(),
-                Some(RefModify::RefDec) => self.last_ref_dec.as_ref(),
-                None => None,
-            },
-        }
+            Action::RefInc => (&[][..], None, &self.last_ref_inspect[..]),
+            // RefDecs (this includes `get_mut`) observe the count
+            Action::RefDec => (&[][..], self.last_ref_dec.as_ref(), &self.last_ref_inspect[..]),
+            Action::Inspect => (&self.last_ref_inc[..], self.last_ref_dec.as_ref(), &[][..]),
+        };
+
+        incs.iter()
+            .chain(inspects.iter())
+            .filter_map(Option::as_ref)
+            .chain(dec)
     }
 
-    pub(super) fn set_last_access(&mut self, action: Action, path_id: usize, version: &VersionVec) {
+    pub(super) fn set_last_access(
+        &mut self,
+        action: Action,
+        thread: thread::Id,
+        path_id: usize,
+        version: &VersionVec,
+    ) {
         match action {
             Action::RefInc => {
-                self.last_ref_modification = Some(RefModify::RefInc);
-                Access::set_or_create(&mut self.last_ref_inc, path_id, version)
+                Access::set_or_create(&mut self.last_ref_inc[thread.as_usize()], path_id, version)
             }
-            Action::RefDec => {
-                self.last_ref_modification = Some(RefModify::RefDec);
-                Access::set_or_create(&mut self.last_ref_dec, path_id, version)
-            }
-            Action::Inspect => Access::set_or_create(&mut self.last_ref_inspect, path_id, version),
+            Action::RefDec => Access::set_or_create(&mut self.last_ref_dec, path_id, version),
+            Action::Inspect => Access::set_or_create(
+                &mut self.last_ref_inspect[thread.as_usize()],
+                path_id,
+                version,
+            ),
         }
     }
 }
